@@ -48,7 +48,7 @@ def run(tier, seed):
     # oracle from the statement ("dials no peers while stopping"): no connect() after stop() has marked the node as stopping
     from .. import explore
     nrd = 0
-    for res, pol in explore.explore(schedscen.c18_stop_while_reconnect_due, 1, max_runs=6000 if tier == "thorough" else 1500):
+    for res, pol in explore.explore(schedscen.c18_stop_while_reconnect_due, 3 if tier == "thorough" else 2, max_runs=20000):
         nrd += 1
         sched_ = [x[1] for x in pol.records]
         for sig in res["oracle"]:
